@@ -467,6 +467,16 @@ def cases(draw, pool='lite'):
     return {'dialect': d, 'sql': sql, 'origin': mode}
 
 
+PY_NAMES = ['self', 'cls', 'args', 'kwargs', 'values', 'table', 'name', 'type', 'key', 'bind', 'dialect', 'whereclause', 'None', 'True',
+            'columns', 'c', 'select', 'inline', 'kw', 'dml', 'stmt', 'element', 'column', 'value', 'other', 'obj', 'x']
+PY_TEMPLATES = ['update t set {n} = 1', 'update t set {n} = 1, b = 2 where {n} > 0', 'insert into t ({n}) values (1)',
+                'insert into t ({n}, b) values (1, 2), (3, 4)', 'select {n} from t', 'select t.{n} from t', 'select * from {n}',
+                'select a as {n} from t', 'create table t ({n} int)', 'create table {n} (a int)', 'delete from t where {n} = 1',
+                'select {n}(a) from t', 'select * from t as {n}', 'select * from t order by {n}', 'select cast(a as {n}) from t',
+                'insert into {n} (a) values (1)', 'update {n} set a = 1', 'select * from t join u on t.{n} = u.{n}',
+                'with {n} as (select 1) select * from {n}', 'select count(*) over (partition by {n}) from t']
+
+
 def type_catalogue():
     """every class name of sqlalchemy.types (the renderer resolves type names through that module) and the usual SQL
     spellings, each bare, with a length / precision and with precision and scale"""
@@ -490,6 +500,11 @@ def fixed_cases():
     for ty in COLTYPES + type_catalogue():
         shapes.append(f'create table t (a {ty})')
         shapes.append(f'select cast(a as {ty}) from t')
+    # names that mean something to Python / SQLAlchemy (keyword arguments, attributes) in every name position
+    for n in PY_NAMES:
+        for tpl in PY_TEMPLATES:
+            shapes.append(tpl.replace('{n}', n))
+            shapes.append(tpl.replace('{n}', '`' + n + '`'))
     for op in BINOPS:
         for tpl in ('select (1, 2) {} 1', 'select a {} (1, 2) from t', 'select not (a, b) {} 1 from t', 'select - ((1, 2) {} (3, 4))',
                     'select * from t where (a, b) {} (select 1, 2)'):
@@ -524,7 +539,7 @@ def run_shard(col, k, nshards, tier, seed):
     if k == 0:
         col.exhaustive_parts.append(('every 8th' if pstep > 1 else 'every') + ' accepted production-pair sentence of the three grammars '
                                     '(every production with every alternative of each of its nonterminals)')
-        col.exhaustive_parts.append(f'all {len(corpus.accepted())} corpus statements and {len(SHAPES) + 2 * len(COLTYPES + type_catalogue()) + 5 * len(BINOPS)} targeted shapes x 3 parser '
+        col.exhaustive_parts.append(f'all {len(corpus.accepted())} corpus statements and {len(SHAPES) + 2 * len(COLTYPES + type_catalogue()) + 5 * len(BINOPS) + 2 * len(PY_NAMES) * len(PY_TEMPLATES)} targeted shapes x 3 parser '
                                     f'dialects x {len(TARGETS)} renderer dialect names; every expression fragment in every statement frame '
                                     f'({len(FRAMES)} x {len(FRAGS)}) and every table fragment in every table frame ({len(TABLE_FRAMES)} x '
                                     f'{len(TABLE_FRAGS)}) x 3 parser dialects')
